@@ -1,50 +1,60 @@
 ------------------------------ MODULE Grouping ------------------------------
-(* Properties C03 / C04 (grouping part).  Design = how LogixDriver.read places n requests: requests that failed   *)
-(* to parse are skipped, requests whose estimated reply does not fit become fragmented transfers, the others are      *)
-(* packed greedily, in order, into multi-service packets whose estimated reply stays within the connection size;     *)
-(* results are keyed by the request's position.  Contract = every sendable request is placed in exactly one packet,   *)
-(* every packet's real reply fits the connection, and result i answers request i.                                     *)
-EXTENDS Integers, Sequences, FiniteSets, FiniteSetsExt, TLC
+(* Properties C03 / C04 (grouping part).  Design = how LogixDriver.read / write place n requests: requests that failed *)
+(* to parse are skipped, requests whose estimated reply (read) or own message (write) does not fit become fragmented   *)
+(* transfers, the others are packed greedily, in order, into multi-service packets: a read joins the current packet    *)
+(* while the estimated reply AND the request item stay within the connection size, a write while the request item       *)
+(* does; results are keyed by the request's position.  Contract = every sendable request is placed in exactly one      *)
+(* packet, every packet's real request item and real reply item fit the connection, and order is kept.                 *)
+(* Sizes are those of the connected data item (sequence count included), as in Transfer.tla.                            *)
+EXTENDS Integers, Sequences, FiniteSets, FiniteSetsExt, SequencesExt, TLC
 
-CONSTANTS S, MaxReq, DataSizes          \* connection size, requests per call, data sizes explored
+CONSTANTS S, MaxReq, DataSizes, PathLens   \* connection size, requests per call, data sizes and (even) path lengths explored
 MOVH == 10
-Bad == -1
-Kinds == {Bad} \cup DataSizes            \* a request is unparsable (Bad) or has a data size
+Bad == [d |-> -1, p |-> 0]
+Kinds == {Bad} \cup [d : DataSizes, p : PathLens]
 
-VARIABLES reqs, groups, frags, placed
-vars == <<reqs, groups, frags, placed>>
+VARIABLES mode, reqs, groups, frags, placed
+vars == <<mode, reqs, groups, frags, placed>>
 
-Est(d)  == d + 10                         \* estimated reply of one member: offset 2 + header 4 + type <= 4 + data
-Real(d) == 2 + 4 + 2 + d                  \* real reply of one member (atomic type): offset + header + type + data
-RECURSIVE SumReal(_, _)
-SumReal(g, k) == IF k = 0 THEN 0 ELSE Real(reqs[g[k]]) + SumReal(g, k - 1)
-RealReply(g) == 2 + 4 + 2 + SumReal(g, Len(g))
+IsBad(r) == r.d < 0
+Est(r)  == r.d + 10                       \* estimated reply of one read member: offset 2 + header 4 + type <= 4 + data
+Real(r) == 2 + 4 + 2 + r.d                \* real reply of one read member (atomic type): offset + header + type + data
+Msg(r)  == IF mode = "read" THEN 2 + 1 + 1 + r.p + 2                \* len(request.message): sequence count, service, path size, path, count
+                            ELSE 2 + 1 + 1 + r.p + 2 + 2 + r.d      \* ... + data type + data
+SumOver(g, k, F(_)) == FoldLeft(LAMBDA a, i : a + F(reqs[i]), 0, SubSeq(g, 1, k))
+RealReply(g)   == IF mode = "read" THEN 2 + 4 + 2 + SumOver(g, Len(g), Real) ELSE 2 + 4 + 2 + 6 * Len(g)
+\* sequence 2 + service/path of the message router 6 + count 2 + per member (offset 2 + message without its sequence count)
+MemberCost(r)  == 2 + Msg(r) - 2
+RealRequest(g) == 2 + 6 + 2 + SumOver(g, Len(g), MemberCost)
 
-Init == /\ reqs \in UNION {[1..n -> Kinds] : n \in 1..MaxReq}
+Init == /\ mode \in {"read", "write"}
+        /\ reqs \in UNION {[1..n -> Kinds] : n \in 1..MaxReq}
         /\ groups = <<>> /\ frags = <<>> /\ placed = FALSE
 
-\* the greedy grouping loop of _read_build_multi_requests, run to completion as one step
-RECURSIVE Pack(_, _, _, _)
-Pack(ids, cur, size, acc) ==
+\* the greedy grouping loops of _read_build_multi_requests / _write_build_multi_requests, run to completion as one step
+RECURSIVE Pack(_, _, _, _, _)
+Pack(ids, cur, rsize, qsize, acc) ==
     IF ids = <<>> THEN (IF cur = <<>> THEN acc ELSE Append(acc, cur))
-    ELSE LET i == Head(ids)  e == Est(reqs[i]) IN
-         IF size + e > S /\ cur # <<>> THEN Pack(Tail(ids), <<i>>, MOVH + e, Append(acc, cur))
-         ELSE Pack(Tail(ids), Append(cur, i), size + e, acc)
+    ELSE LET i == Head(ids)  e == IF mode = "read" THEN Est(reqs[i]) ELSE 0  m == Msg(reqs[i]) IN
+         IF (rsize + e > S \/ qsize + m > S) /\ cur # <<>> THEN Pack(Tail(ids), <<i>>, MOVH + e, MOVH + m, Append(acc, cur))
+         ELSE Pack(Tail(ids), Append(cur, i), rsize + e, qsize + m, acc)
 
+Fragmented(r) == IF mode = "read" THEN Est(r) + MOVH > S ELSE Msg(r) + MOVH > S
 Place == /\ ~placed
          /\ LET n == Len(reqs)
-                sendable == SelectSeq([i \in 1..n |-> i], LAMBDA i : reqs[i] # Bad)
-                fragd == SelectSeq(sendable, LAMBDA i : Est(reqs[i]) + MOVH > S)
-                small == SelectSeq(sendable, LAMBDA i : Est(reqs[i]) + MOVH <= S)
-            IN groups' = Pack(small, <<>>, MOVH, <<>>) /\ frags' = fragd
-         /\ placed' = TRUE /\ UNCHANGED reqs
+                sendable == SelectSeq([i \in 1..n |-> i], LAMBDA i : ~IsBad(reqs[i]))
+                fragd == SelectSeq(sendable, LAMBDA i : Fragmented(reqs[i]))
+                small == SelectSeq(sendable, LAMBDA i : ~Fragmented(reqs[i]))
+            IN groups' = Pack(small, <<>>, MOVH, MOVH, <<>>) /\ frags' = fragd
+         /\ placed' = TRUE /\ UNCHANGED <<mode, reqs>>
 Next == Place
 Spec == Init /\ [][Next]_vars
 
 InGroups(i) == Cardinality({g \in 1..Len(groups) : \E k \in 1..Len(groups[g]) : groups[g][k] = i})
 InFrags(i)  == Cardinality({k \in 1..Len(frags) : frags[k] = i})
-ExactlyOnePacket == placed => \A i \in 1..Len(reqs) : IF reqs[i] = Bad THEN InGroups(i) + InFrags(i) = 0 ELSE InGroups(i) + InFrags(i) = 1
+ExactlyOnePacket == placed => \A i \in 1..Len(reqs) : IF IsBad(reqs[i]) THEN InGroups(i) + InFrags(i) = 0 ELSE InGroups(i) + InFrags(i) = 1
 NoEmptyPacket    == \A g \in 1..Len(groups) : groups[g] # <<>>
 GroupReplyFits   == \A g \in 1..Len(groups) : RealReply(groups[g]) <= S
+GroupRequestFits == \A g \in 1..Len(groups) : RealRequest(groups[g]) <= S
 OrderPreserved   == \A g \in 1..Len(groups) : \A a, b \in 1..Len(groups[g]) : a < b => groups[g][a] < groups[g][b]
 =============================================================================
